@@ -305,3 +305,91 @@ def calibrated_jump_programs(bytes_per_stmt, tier):
                         continue
                     out.append((f"limit:{name}:{filler}:{n}~{limit}B", src))
     return out
+
+
+# ------------------------------------------------------------------------------------------
+# line endings: CRLF / mixed forms, multi-line tokens before failing statements
+
+
+def crlf(s):
+    return s.replace("\r\n", "\n").replace("\n", "\r\n")
+
+
+def mixed(s, pattern):
+    """only some line breaks become CRLF: bit k of `pattern` decides for the k-th break (cyclic, 7 bits)"""
+    parts = s.replace("\r\n", "\n").split("\n")
+    out = []
+    for k, p in enumerate(parts[:-1]):
+        out.append(p + ("\r\n" if (pattern >> (k % 7)) & 1 else "\n"))
+    out.append(parts[-1])
+    return "".join(out)
+
+
+def multiline_tokens():
+    """(name, text) of tokens that span 1..3 line breaks"""
+    toks = []
+    for k in (1, 2, 3):
+        body = "\n".join(f"  line{j} é" for j in range(k + 1))
+        toks.append((f"comment{k}", f"#- c\n{body[2:]} -#" if k == 1 else "#- " + body[2:] + "\n-#"))
+        toks.append((f"comment-nested{k}", "#- a #- b\n" * k + "-# " * k + "-#"))
+        toks.append((f"string{k}", "s = '" + "\n".join(f"t{j}" for j in range(k + 1)) + "'"))
+        toks.append((f"dstring{k}", 's = "' + "\n".join(f"é{j}" for j in range(k + 1)) + '"'))
+        toks.append((f"raw{k}", "s = r'" + "\n".join(f"r{j}\\" for j in range(k + 1)) + "'"))
+        toks.append((f"raw-hash{k}", "s = r#'" + "\n".join(f"'{j}" for j in range(k + 1)) + "'#"))
+        toks.append((f"interp{k}", "z = 1\ns = '" + "\n".join("{z}" for j in range(k + 1)) + "'"))
+        toks.append((f"interp-expr{k}", "z = 1\ns = '{z +" + "\n" * k + " 1}'"))
+        toks.append((f"fmt-spec{k}", "z = 1\ns = '{z:" + "\n" * k + ">5}'"))
+        toks.append((f"escaped-nl{k}", "s = 'a\\" + "\n" + "b'" + "\nt = 'c\\\n d'" * (k - 1)))
+        toks.append((f"continuation{k}", "q = 1 +" + "\n  " * k + "2"))
+        toks.append((f"map-block{k}", "m =\n" + "".join(f"  k{j}: {j}\n" for j in range(k)).rstrip("\n")))
+    return toks
+
+
+FAIL_COMPILE = ["x = 1 +", "y = )", "x = [1, 2", "f = |a, | a", "match", "x = 'unterminated", "let x: = 1", "import"]
+FAIL_RUN = ["x = [1, 2, 3]\nx.foo()", "throw 'boom'", "assert false", "w = 1 + null", "f = |a| a.nope\nf 1",
+            "g = ||\n  h = ||\n    throw 'deep'\n  h()\ng()", "[1, 2][5]", "assert_eq 1, 2", "let n: String = 1",
+            "t =\n  @display: || throw 'in display'\nthrow t"]
+OK_TAIL = ["y = 2", "print 'ok'", ""]
+
+
+def crlf_family(tier, rng, corpus):
+    """returns [(origin, src)].  corpus: [(name, text)] of the repository's koto sources"""
+    out = []
+    toks = multiline_tokens()
+    tails = [("compile-error", t) for t in FAIL_COMPILE] + [("run-error", t) for t in FAIL_RUN] + [("ok", t) for t in OK_TAIL]
+    if tier == "quick":
+        tails = [("compile-error", t) for t in FAIL_COMPILE[:4]] + [("run-error", t) for t in FAIL_RUN[:6]] + [("ok", "y = 2")]
+    for tname, tok in toks:
+        for kind, tail in tails:
+            # the failing statement right after the token / a few lines later / with code after it;
+            # with and without a final line break; a second multi-line token before the first
+            shapes = [tok + "\n" + tail, tok + "\n" + tail + "\n", "a = 0\n" + tok + "\nb = 1\nc = 2\n" + tail + "\n",
+                      tok + "\n" + tail + "\nafter = 1\n"]
+            if tier != "quick":
+                shapes += [tok + "\n" + tok.replace("s =", "s2 =") + "\n" + tail + "\n",
+                           "f = ||\n" + "\n".join("  " + l for l in tok.split("\n")) + "\n" +
+                           "\n".join("  " + l for l in tail.split("\n")) + "\nf()\n"]
+            for si, base in enumerate(shapes):
+                forms = [("crlf", crlf(base)), ("mixed", mixed(base, 0b0101101)), ("mixed2", mixed(base, 0b1010010)),
+                         ("cr-only-in-token", base.replace("\n", "\r\n", tok.count("\n")))]
+                if tier != "quick":
+                    forms += [("lf", base), ("mixed3", mixed(base, 0b0000001)), ("mixed4", mixed(base, 0b1111110)),
+                              ("lone-cr", base.replace("\n", "\r", 1))]
+                for fname, text in forms:
+                    out.append((f"crlf:{tname}:{kind}:{si}:{fname}", text))
+    # every multi-line pool value in CRLF / mixed form, alone and before a failing statement
+    for p in P.POOL:
+        if "\n" in p["src"]:
+            for fname, f in (("crlf", crlf), ("mixed", lambda s: mixed(s, 0b0101101))):
+                out.append((f"crlf:pool:{p['name']}:{fname}", f(p["src"] + "\n")))
+                out.append((f"crlf:pool:{p['name']}:{fname}:run-error", f("v = 0\n" + p["src"] + "\nv.nope()\n")))
+                out.append((f"crlf:pool:{p['name']}:{fname}:compile-error", f(p["src"] + "\nx = 1 +\n")))
+    # the repository's own sources with CRLF / mixed line endings, and with an error appended
+    srcs = [(n, t) for n, t in corpus if "\n" in t and len(t) < 20000]
+    for k, (name, text) in enumerate(srcs):
+        out.append((f"crlf:corpus:{name}:crlf", crlf(text)))
+        if tier != "quick" or k % 3 == 0:
+            out.append((f"crlf:corpus:{name}:mixed", mixed(text, rng.next() % 128)))
+            out.append((f"crlf:corpus:{name}:crlf+compile-error", crlf(text.rstrip("\n") + "\nx = 1 +")))
+            out.append((f"crlf:corpus:{name}:crlf+run-error", crlf(text.rstrip("\n") + "\nnull.nope()\n")))
+    return out
